@@ -262,6 +262,100 @@ Check load_range_is_bounded_slice : forall ix s c off len mx d off' bs,
             off + len < two64 /\ bs = firstn (N.to_nat len) (skipn (N.to_nat off) b).
 Print Assumptions load_range_is_bounded_slice.
 
+(* ---- export profiles, record level (material validation of the self-contained and CAS-addressed
+        profiles; WSC envelopes, projection comparison and WAL segment recovery are outside the model) -- *)
+(* an accepted CAS-addressed import has every referenced blob present, hashing to its reference, of the
+   referenced length *)
+Theorem cas_import_ok_is_intact : forall H mats segrefs retrefs cas,
+  cas_check H mats segrefs retrefs cas = CASOk ->
+  forall r, In r (segrefs ++ retrefs) ->
+    exists b, find N.compare (cref_hash r) cas = Some b /\ H b = cref_hash r /\ lenN b = cref_len r.
+Proof. exact cas_ok_intact. Qed.
+Check cas_import_ok_is_intact : forall H mats segrefs retrefs cas,
+  cas_check H mats segrefs retrefs cas = CASOk ->
+  forall r, In r (segrefs ++ retrefs) ->
+    exists b, find N.compare (cref_hash r) cas = Some b /\ H b = cref_hash r /\ lenN b = cref_len r.
+Print Assumptions cas_import_ok_is_intact.
+
+Theorem withheld_or_corrupt_is_obstruction_cas : forall H mats segrefs retrefs cas r,
+  In r (segrefs ++ retrefs) ->
+  (find N.compare (cref_hash r) cas = None -> cas_check H mats segrefs retrefs cas <> CASOk) /\
+  (forall orig c, H orig = cref_hash r -> find N.compare (cref_hash r) cas = Some c -> c <> orig ->
+     cas_check H mats segrefs retrefs cas <> CASOk \/ Collision H).
+Proof.
+  intros H mats segrefs retrefs cas r Hin. split.
+  - apply cas_withheld_is_obstruction; exact Hin.
+  - intros orig c. apply cas_corrupt_is_obstruction; exact Hin.
+Qed.
+Check withheld_or_corrupt_is_obstruction_cas : forall H mats segrefs retrefs cas r,
+  In r (segrefs ++ retrefs) ->
+  (find N.compare (cref_hash r) cas = None -> cas_check H mats segrefs retrefs cas <> CASOk) /\
+  (forall orig c, H orig = cref_hash r -> find N.compare (cref_hash r) cas = Some c -> c <> orig ->
+     cas_check H mats segrefs retrefs cas <> CASOk \/ Collision H).
+Print Assumptions withheld_or_corrupt_is_obstruction_cas.
+
+(* an accepted self-contained import: every embedded payload hashes to the digest of its record and belongs
+   to the record set; every present record has its payload *)
+Theorem sc_import_ok_is_intact : forall H mats pays, sc_check H mats pays = SCOk ->
+  (forall m b, In (m, b) pays -> H b = mat_digest m /\ exists m', In m' mats /\ mat_digest m' = mat_digest m) /\
+  (forall m, In m mats -> mat_present m = true ->
+     exists m' b, In (m', b) pays /\ mat_digest m' = mat_digest m /\ H b = mat_digest m).
+Proof. exact sc_ok_intact. Qed.
+Check sc_import_ok_is_intact : forall H mats pays, sc_check H mats pays = SCOk ->
+  (forall m b, In (m, b) pays -> H b = mat_digest m /\ exists m', In m' mats /\ mat_digest m' = mat_digest m) /\
+  (forall m, In m mats -> mat_present m = true ->
+     exists m' b, In (m', b) pays /\ mat_digest m' = mat_digest m /\ H b = mat_digest m).
+Print Assumptions sc_import_ok_is_intact.
+
+Theorem withheld_or_corrupt_is_obstruction_sc : forall H mats pays,
+  (forall m, In m mats -> mat_present m = true ->
+     (forall m' b, In (m', b) pays -> mat_digest m' <> mat_digest m) -> sc_check H mats pays <> SCOk) /\
+  (forall m c orig, In (m, c) pays -> H orig = mat_digest m -> c <> orig ->
+     sc_check H mats pays <> SCOk \/ Collision H).
+Proof.
+  intros H mats pays. split.
+  - intros m. apply sc_withheld_is_obstruction.
+  - intros m c orig. apply sc_corrupt_is_obstruction.
+Qed.
+Check withheld_or_corrupt_is_obstruction_sc : forall H mats pays,
+  (forall m, In m mats -> mat_present m = true ->
+     (forall m' b, In (m', b) pays -> mat_digest m' <> mat_digest m) -> sc_check H mats pays <> SCOk) /\
+  (forall m c orig, In (m, c) pays -> H orig = mat_digest m -> c <> orig ->
+     sc_check H mats pays <> SCOk \/ Collision H).
+Print Assumptions withheld_or_corrupt_is_obstruction_sc.
+
+(* round trip, partial: stated at record level and GIVEN that the reference set equals the present records
+   (the full statement "import (export records) = records" needs the WSC envelope codec, which is not modelled) *)
+Theorem export_import_roundtrip_cas_partial : forall H mats segrefs retrefs cas rs,
+  canon key_cmp cref_cmp cref_key retrefs = Some rs ->
+  tdiff (tset (map mat_triple (filter mat_present mats))) (tset (map cref_triple (map snd rs))) = 0 ->
+  tdiff (tset (map cref_triple (map snd rs))) (tset (map mat_triple (filter mat_present mats))) = 0 ->
+  (forall r, In r (segrefs ++ retrefs) ->
+     exists b, find N.compare (cref_hash r) cas = Some b /\ H b = cref_hash r /\ lenN b = cref_len r) ->
+  cas_check H mats segrefs retrefs cas = CASOk.
+Proof. exact cas_roundtrip. Qed.
+Check export_import_roundtrip_cas_partial : forall H mats segrefs retrefs cas rs,
+  canon key_cmp cref_cmp cref_key retrefs = Some rs ->
+  tdiff (tset (map mat_triple (filter mat_present mats))) (tset (map cref_triple (map snd rs))) = 0 ->
+  tdiff (tset (map cref_triple (map snd rs))) (tset (map mat_triple (filter mat_present mats))) = 0 ->
+  (forall r, In r (segrefs ++ retrefs) ->
+     exists b, find N.compare (cref_hash r) cas = Some b /\ H b = cref_hash r /\ lenN b = cref_len r) ->
+  cas_check H mats segrefs retrefs cas = CASOk.
+Print Assumptions export_import_roundtrip_cas_partial.
+
+Theorem export_import_roundtrip_sc_partial : forall H mats pays ps,
+  canon N.compare payload_cmp (fun p => mat_digest (fst p)) pays = Some ps ->
+  (forall m b, In (m, b) pays -> H b = mat_digest m /\ exists m', In m' mats /\ mat_digest m' = mat_digest m) ->
+  (forall m, In m mats -> mat_present m = true -> exists m' b, In (m', b) pays /\ mat_digest m' = mat_digest m) ->
+  sc_check H mats pays = SCOk.
+Proof. exact sc_roundtrip. Qed.
+Check export_import_roundtrip_sc_partial : forall H mats pays ps,
+  canon N.compare payload_cmp (fun p => mat_digest (fst p)) pays = Some ps ->
+  (forall m b, In (m, b) pays -> H b = mat_digest m /\ exists m', In m' mats /\ mat_digest m' = mat_digest m) ->
+  (forall m, In m mats -> mat_present m = true -> exists m' b, In (m', b) pays /\ mat_digest m' = mat_digest m) ->
+  sc_check H mats pays = SCOk.
+Print Assumptions export_import_roundtrip_sc_partial.
+
 (* ---- non-vacuity: a concrete hash, concrete histories on both tiers and the index ------------ *)
 Definition toy_hash (b : bytes) : N := fold_left (fun a x => (a * 257 + x + 1) mod 1000003) b 7.
 
@@ -286,5 +380,16 @@ Example c20_nonvacuous :
     [IODesc (ROk (H a, 3)); IODesc (ROk (H a, 3)); IODesc (RErr (SemanticCoordinateConflict (H a) (H c)));
      IOLoad (ROk ((H a, 3), a)); IOStore OUnit; IOLoad (RErr (MissingBlob (H a)));
      IOLoad (RErr MissingSemanticCoordinate)] /\
-  first_content [IRetain c1 a; IRetain c2 a; IRetain c1 c] c1 = Some a.
+  first_content [IRetain c1 a; IRetain c2 a; IRetain c1 c] c1 = Some a /\
+  (* export profiles: intact material accepted, withheld / corrupt / wrong-length material obstructed *)
+  let m1 : material := (H a, (1, (5, 0))) in let m2 : material := (H c, (2, (1, 0))) in
+  let r1 : cref := ((5, 1), (H a, 3)) in let r2 : cref := ((1, 2), (H c, 2)) in
+  sc_check H [m1; m2] [(m1, a); (m2, c)] = SCOk /\
+  sc_check H [m1; m2] [(m1, a)] = SCMissing (H c) /\
+  sc_check H [m1; m2] [(m1, a); (m2, a)] = SCDigestMismatch (H c) (H a) /\
+  cas_check H [m1; m2] [] [r1; r2] [(H a, a); (H c, c)] = CASOk /\
+  cas_check H [m1; m2] [] [r1; r2] [(H a, a)] = CASMissingBlob (H c) 2 /\
+  cas_check H [m1; m2] [] [r1; r2] [(H a, a); (H c, a)] = CASHashMismatch (H c) (H a) /\
+  cas_check H [m1; m2] [] [r1] [(H a, a); (H c, c)] = CASRefMismatch 1 0 /\
+  cas_check H [m1; m2] [] [r1; ((1, 2), (H c, 3))] [(H a, a); (H c, c)] = CASLenMismatch 3 2.
 Proof. cbv zeta. repeat split; try (vm_compute; reflexivity). vm_compute. discriminate. Qed.
